@@ -202,9 +202,11 @@ def convLeaf (ext : Ext) (k : LeafKind) (x : SVal) : R Int :=
   | .f32, .int _ v => .ok (Float.ofInt Float.f32 v)
   | .f32, .f32 b => .ok b
   | .f32, .f64 b => .ok (Float.convert Float.f64 Float.f32 b)
+  | .f32, .char c => .ok (Float.ofInt Float.f32 c)
   | .f64, .int _ v => .ok (Float.ofInt Float.f64 v)
   | .f64, .f32 b => .ok (Float.convert Float.f32 Float.f64 b)
   | .f64, .f64 b => .ok b
+  | .f64, .char c => .ok (Float.ofInt Float.f64 c)
   | .f16, .f32 b => .ok (Float.convert Float.f32 Float.f16 b)
   | .f16, .f64 b => .ok (Float.convert Float.f64 Float.f16 b)
   | .date32, .str s => ext.parseDate false s
